@@ -7,7 +7,8 @@ FUNCTIONS = ["bufferevent_readcb", "bufferevent_writecb", "bufferevent_write", "
              "be_pair_enable", "be_pair_flush", "be_filter_process_input", "be_filter_process_output", "bufferevent_filtered_outbuf_cb", "be_filter_read_nolock_",
              "be_filter_eventcb", "bufferevent_run_deferred_callbacks_locked"]
 BOUNDS = ("<= 8 bytes per buffer, all byte values symbolic; socket: one read event after <= 4 buffered bytes, two writes + two write events; pair: two writes of 1..4 bytes, "
-          "partner enabled before/between/after, symbolic high-water mark 0..9, application drains 0..8 bytes, BEV_FINISHED flush; filter: <= 3 filter invocations per step")
+          "partner enabled before/between/after, symbolic high-water mark 0..9, application drains 0..8 bytes, BEV_FINISHED flush; filter: <= 3 filter invocations per step; "
+          "stateful filter: 3 + 2 (thorough also 4 + 0) symbolic bytes written, symbolic tail of <= 2 bytes held back, then flush")
 OUT = ("TLS (OpenSSL / mbedTLS) bufferevents: the external libraries cannot be encoded -- not claimed; the evbuffer implementation itself (C12-C16, replaced by the contract "
        "sink); megabyte sizes, multi-iteration scheduling, rate limits (C22), stacked filters beyond one level, real sockets")
 TEXT = ("Socket: the read event appends exactly the delivered bytes after the buffered ones and bufferevent_read returns them in order; write() is offered the queued bytes in "
@@ -43,7 +44,13 @@ def obligations(tier):
             dict(name="filter_eof_kf", harness=FH, entry="harness_filter_eof", defines=FD + ["KF_ONLY_filter_eof"], unwind=10, unwindset=UW, cbmc=OB, timeout=900, mem_gb=6,
                  known_finding="KF-C17-filter-eof-overtakes-data", expect_fail=["C17: EOF reported while bytes received before it are still waiting"],
                  desc="recorded finding: bytes held back in the underlying input by the filter's read high-water mark when the EOF arrives (must still fail)")]
+    for md in (["BEV_FLUSH", "BEV_FINISHED"] if tier == "thorough" else ["BEV_FLUSH"]):
+        obs.append(dict(name="filter_flush_stateful_" + md[4:].lower(), harness=FH, entry="harness_filter_flush_stateful", defines=FD + ["C17_FLUSH_MODE=" + md], unwind=10,
+                        unwindset=UW, cbmc=OB, timeout=900, mem_gb=6,
+                        desc="stateful output filter that holds back a tail of <=2 bytes: two writes then bufferevent_flush(EV_WRITE, %s): the filter is called although the output buffer is empty and the underlying output equals what was written" % md))
     if tier == "thorough":
+        obs.append(dict(name="filter_flush_stateful_one_write", harness=FH, entry="harness_filter_flush_stateful", defines=FD + ["C17_N1=4", "C17_N2=0"], unwind=10,
+                        unwindset=UW, cbmc=OB, timeout=900, mem_gb=6, desc="stateful output filter, one write of 4 bytes, then BEV_FLUSH"))
         for o in list(obs):
             if o["name"] in ("sock_read_bytes", "sock_write_bytes", "pair_stream_between", "pair_finish", "filter_in_bytes"):
                 n = dict(o); n["name"] += "_ndebug"; n["ndebug"] = True; n["desc"] += " (NDEBUG build)"; obs.append(n)
